@@ -1053,6 +1053,17 @@ orc_compiler_rewrite_vars (OrcCompiler *compiler)
       if (opcode->src_size[k] == 0) continue;
 
       var = insn->src_args[k];
+      if (compiler->vars[var].vartype == ORC_VAR_TYPE_ACCUMULATOR) {
+        ORC_COMPILER_ERROR(compiler,"using accumulator var as source at line %d", insn->line);
+        compiler->result = ORC_COMPILE_RESULT_UNKNOWN_PARSE;
+      }
+      if ((opcode->flags & ORC_STATIC_OPCODE_LOAD) && k == 0 &&
+          !(opcode->flags & ORC_STATIC_OPCODE_INVARIANT) &&
+          compiler->vars[var].vartype != ORC_VAR_TYPE_SRC &&
+          compiler->vars[var].vartype != ORC_VAR_TYPE_DEST) {
+        ORC_COMPILER_ERROR(compiler,"load from a var that is not an array at line %d", insn->line);
+        compiler->result = ORC_COMPILE_RESULT_UNKNOWN_PARSE;
+      }
       if (compiler->vars[var].vartype == ORC_VAR_TYPE_DEST) {
         compiler->vars[var].load_dest = TRUE;
       }
@@ -1085,6 +1096,11 @@ orc_compiler_rewrite_vars (OrcCompiler *compiler)
 
       var = insn->dest_args[k];
 
+      if ((opcode->flags & ORC_STATIC_OPCODE_STORE) &&
+          compiler->vars[var].vartype != ORC_VAR_TYPE_DEST) {
+        ORC_COMPILER_ERROR(compiler,"store to a var that is not a destination array at line %d", insn->line);
+        compiler->result = ORC_COMPILE_RESULT_UNKNOWN_PARSE;
+      }
       if (compiler->vars[var].vartype == ORC_VAR_TYPE_DEST) {
         continue;
       }
